@@ -74,7 +74,8 @@ prop("C06", "c06",
      "GET/POST) equal those of a fresh repository into which the model's current versions are loaded once; a change is "
      "expected to apply iff that fresh load succeeds; a rejected change must return an error and leave all probe answers "
      "unchanged. Non-trivial: the history contains an update or delete; distinct by the canonical history string.",
-     [dict(run="^TestHistoryEqualsFreshLoad$", quick=3000, thorough=48000, shards_thorough=12)],
+     [dict(run="^TestHistoryEqualsFreshLoad$", quick=3000, thorough=48000, shards_thorough=12),
+      dict(run="^TestHistoriesOfSeveralProvidersActingAtOnceEndLikeAFreshLoad$", quick=600, thorough=20000, shards_thorough=4, race=True)],
      ["rules sharing an expression carry the same backtracking flag (undefined otherwise)",
       "add only for absent sources, update/delete only for existing ones (what providers do)"],
      level="Stateful randomised search over rule-set histories with a differential oracle against a freshly loaded "
@@ -370,6 +371,7 @@ prop("C18", "c18",
       dict(run="^TestHTTPEndpointProviderConverges$", quick=300, thorough=3000, shards_thorough=4),
       dict(run="^TestCloudBlobProviderConverges$", quick=800, thorough=2000, shards_thorough=4),
       dict(run="^TestCloudBlobSingleObjectConverges$", quick=800, thorough=2000, shards_thorough=2),
+      dict(run="^TestSingleObjectOfAnS3BucketConverges$", quick=150, thorough=2000, shards_thorough=2),
       dict(run="^TestKubernetesProviderConverges$", quick=1500, thorough=3000, shards_thorough=4)],
      ["client-go's informer machinery, real inotify timing, real S3/GCS/Azure and gocron scheduling are outside the harness: "
       "events and polls are delivered synchronously", "cloud blob: a poll that meets an undecodable or rejected object is don't-care for the other objects of that poll",
